@@ -164,8 +164,14 @@ func TestVerifC09(t *testing.T) {
 	n := c09count(700, 20000)
 	maxText := c09count(3, 4)
 	for i := 0; i < n; i++ {
-		m := lgMode{fold: i%4 == 1, bytes: i%2 == 1}
+		// fold with bytes (i%4 == 1) and fold with runes (i%8 == 6)
+		m := lgMode{fold: i%4 == 1 || i%8 == 6, bytes: i%2 == 1}
 		universe := lgAlphabet(m)
+		if m.fold && m.bytes {
+			// k and K: the orbit of k passes through a non-ASCII member (U+212A) before it reaches K; in
+			// byte mode that member is skipped, not the rest of the orbit (seeded change C09-r15m2)
+			universe = append(universe, 'k', 'K')
+		}
 		nr := 1 + r.Intn(4)
 		nsc := 1 + r.Intn(2)
 		var rules []lgRule
